@@ -5,7 +5,7 @@ use crate::gen::*;
 use crate::props::c01::{doc_request, norm, norm_dict, same};
 use crate::strict::strict_load;
 use lopdf::xref::XrefType;
-use lopdf::{Document, Object};
+use lopdf::{Document, IncrementalDocument, Object};
 use serde_json::json;
 
 const BOOKKEEPING: &[&[u8]] = &[b"Size", b"Prev", b"Type", b"W", b"Index", b"Length", b"Filter", b"DecodeParms"];
@@ -29,8 +29,53 @@ pub fn check_strict(c: &mut Ctx, before: &Document, bytes: &[u8], kind: &str, ta
     }
 }
 
+/// incremental saves: previous file + appended revision must be strictly valid as a whole
+fn incremental(c: &mut Ctx) {
+    for i in 0..c.n(150, 2000) {
+        let Some(mut r) = c.case("incr", i) else { continue };
+        let mut doc = gen_doc(&mut r);
+        let stream = r.chance(1, 2);
+        doc.reference_table.cross_reference_type = if stream { XrefType::CrossReferenceStream } else { XrefType::CrossReferenceTable };
+        let kind = if stream { "stream" } else { "table" };
+        let mut base = Vec::new();
+        if doc.save_to(&mut base).is_err() { continue; }
+        // files ending with and without an end-of-line after %%EOF
+        if r.chance(1, 2) { base.extend_from_slice(*r.pick(&[&b"\n"[..], b"\r\n"])); }
+        let Ok(mut inc) = IncrementalDocument::load_from(&base[..]) else { c.oracle_fail("incr:load", "saved file does not load as IncrementalDocument", json!({"file": hex(&base)})); continue };
+        let mut expected = inc.get_prev_documents().clone();
+        let ids: Vec<_> = expected.objects.keys().cloned().filter(|id| !matches!(expected.objects[id], Object::Stream(ref s) if s.dict.has_type(b"XRef"))).collect();
+        for id in &ids { if r.chance(1, 3) { let o = gen_obj(&mut r, 3); inc.new_document.set_object(*id, o.clone()); expected.objects.insert(*id, o); } }
+        for _ in 0..1 + r.usize(3) { let o = if r.chance(1, 4) { Object::Stream(gen_stream(&mut r, 1)) } else { gen_obj(&mut r, 3) }; let id = inc.new_document.add_object(o.clone()); expected.objects.insert(id, o); }
+        expected.objects.retain(|_, o| !matches!(o, Object::Stream(s) if s.dict.has_type(b"XRef")));
+        let nd = &inc.new_document;
+        let req = format!("save_incr {} {} {} {} {} {} {}", kind, nd.max_id, hex_tok(nd.version.as_bytes()), hex_tok(&nd.binary_mark), hex_tok(&base),
+            show_obj(&Object::Dictionary(nd.trailer.clone())), show_objects(nd.objects.iter()));
+        let mut out = Vec::new();
+        match guard(|| inc.save_to(&mut out)) {
+            Ok(Ok(())) => {
+                c.corr(req.clone(), format!("ok {} {} {}", hex_tok(&out), inc.new_document.max_id, show_obj(&Object::Dictionary(inc.new_document.trailer.clone()))));
+                c.nontrivial(&req);
+                c.count(if stream { "incr.xref_stream" } else { "incr.xref_table" });
+                match guard(|| strict_load(&out)) {
+                    Ok(Ok(sd)) => {
+                        if sd.revisions != 2 { c.oracle_fail("strict:revisions", &format!("strict reader sees {} revisions, expected 2", sd.revisions), json!({"file": hex(&out)})); }
+                        let bad = expected.objects.len() != sd.objects.len() || expected.objects.iter().any(|(id, o)| !matches!(sd.objects.get(id), Some(b) if same(&norm(b), &norm(o))));
+                        if bad { c.oracle_fail("strict:objects", "the strict reader does not recover previous objects overridden by the new revision", json!({"file": hex(&out), "kind": kind})); }
+                        c.count("incr.strict_ok");
+                    }
+                    Ok(Err(rule)) => c.oracle_fail(&format!("strict-reject:{}", rule.split(' ').take(4).collect::<Vec<_>>().join("-")), &format!("strict reader rejects the incremental file: {}", rule), json!({"file": hex(&out), "kind": kind})),
+                    Err((site, msg)) => c.oracle_fail(&format!("harness-panic@{}", site), &msg, json!({"file": hex(&out)})),
+                }
+            }
+            Ok(Err(_)) => c.count("incr.save_error"),
+            Err((site, msg)) => c.oracle_fail(&format!("panic@{}", site), &msg, json!({"kind": kind})),
+        }
+    }
+}
+
 pub fn run(c: &mut Ctx) {
-    c.rule = "documents as in C01 (all object kinds, sparse ids, generations, streams, any version/binary mark) x table|stream xref, plain save; \
+    incremental(c);
+    c.rule = "documents as in C01 (all object kinds, sparse ids, generations, streams, any version/binary mark) x table|stream xref, plain save AND incremental save over previous files ending with/without an EOL; \
 each saved file goes through the strict structural reader (every byte accounted for) and through the `save` correspondence (model bytes = real bytes). \
 Non-trivial = document with >= 2 objects; distinct by request text.".into();
     let n = c.n(400, 6000);
